@@ -451,6 +451,9 @@ type Bool struct {
 	// exactly when the value is nil if NilSense, exactly when it is non-nil otherwise
 	NilOf    any
 	NilSense bool
+	// Conj: this boolean (before Neg) is the conjunction of these conditions (`a && b`
+	// kept in a variable; `a || b` is the negated conjunction of the negations)
+	Conj []*Bool
 }
 
 // Obj is an abstract memory object.
@@ -732,6 +735,17 @@ func ValKey(v Val) string {
 		}
 		if x.Cmp != nil {
 			return "(" + ValKey(x.Cmp.X) + x.Cmp.Op + ValKey(x.Cmp.Y) + ")"
+		}
+		if len(x.Conj) > 0 {
+			var p []string
+			for _, c := range x.Conj {
+				p = append(p, ValKey(c))
+			}
+			k := "and(" + strings.Join(p, ",") + ")"
+			if x.Neg {
+				return "!" + k
+			}
+			return k
 		}
 		return "bool?"
 	case *Ptr:
